@@ -1,6 +1,10 @@
 import Marwood.Proofs.Tables
 import Marwood.Lemmas.Parse
 import Marwood.Lemmas.LexSpans
+import Marwood.Lemmas.ParseTextScan
+import Marwood.Lemmas.ParseTextShift
+import Marwood.Lemmas.ParseTextNoPanic
+import Marwood.Lemmas.ParseTextLoop
 /-!
 # C11 — reader discipline: total, exact spans, one datum per parse, incompleteness found
 
@@ -253,5 +257,214 @@ example : parseTokens noFloats sample sampleTokens =
 
 example : parseTokens noFloats sample [⟨0,1,.leftParen⟩, ⟨1,2,.symbol⟩, ⟨3,4,.dot⟩] =
     .err .incomplete := by decide
+
+/-! ### T11.4 — `parse_text` hands back the suffix at the next token; the read loop visits each
+datum once and ends within `|tokens|` rounds
+
+`Token.shift k t` is `t` with both ends of its span moved `k` bytes to the right.
+`ParseText.readToksF fo text` is the read loop at the level of the specification: parse one datum
+from the token list of the *whole* text, continue with the tokens that are left.
+`ParseText.ReadsAs fo text ts ds fin`: `ts` is the concatenation of non-empty groups, one per datum
+of `ds`, in order, each group parsing on its own to its datum with nothing left, followed by nothing
+(`fin = none`) or by a token list on which `parse` fails with `fin`. -/
+
+/-- the scanner at a token boundary: cut the text at the start of any token the scanner returned;
+    the cut is on a character boundary, and scanning the suffix yields exactly that token and all
+    later ones, spans shifted by the offset of the cut -/
+theorem scan_suffix_at_token {text : Text} {ts pre : List Token} {t : Token} {rest : List Token}
+    (h : scan text = .ok ts) (hts : ts = pre ++ t :: rest) :
+    ∃ (p sfx : Text) (ts0 : List Token), text = p ++ sfx ∧ byteLen p = t.lo ∧
+      dropBytes t.lo text = some sfx ∧ scan sfx = .ok ts0 ∧
+      t :: rest = ts0.map (Token.shift t.lo) := by
+  obtain ⟨p, sfx, ts0, he, hlo, hsc, hmap⟩ := ParseText.scan_suffix h hts
+  exact ⟨p, sfx, ts0, he, hlo.symm, by rw [he, hlo]; exact dropBytes_append _ _, hsc, hmap⟩
+
+/-- the start offset of the scanner only shifts the spans -/
+theorem scan_offset_shift (k f pos : Nat) (cs : Text) :
+    scanFuel f (pos + k) cs = ParseText.shiftRes k (scanFuel f pos cs) :=
+  ParseText.scanFuel_shift k f pos cs
+
+/-- T11.4 (a): whenever `parse_text` returns a datum, the text scanned, `parse` returned that datum
+    and some remaining tokens `rest`; the remaining text is `none` iff `rest = []`, and otherwise it
+    is exactly the suffix of the text that starts at the span start of the first token of `rest` -/
+theorem parse_text_remaining (fo : FloatOps) (text : Text) (d : Datum) (r : Option Text)
+    (h : parseText fo text = .ok (d, r)) :
+    ∃ ts rest, scan text = .ok ts ∧ parseTokens fo text ts = .ok (d, rest) ∧
+      (r = none ↔ rest = []) ∧
+      ∀ t rest', rest = t :: rest' →
+        ∃ p sfx, text = p ++ sfx ∧ byteLen p = t.lo ∧ dropBytes t.lo text = some sfx ∧
+          r = some sfx := by
+  cases hs : scan text with
+  | error e => rw [ParseText.parseText_lexErr fo hs] at h; cases h
+  | ok ts =>
+    cases hp : parseTokens fo text ts with
+    | err e => rw [ParseText.parseText_err fo hs hp] at h; cases h
+    | panic m => rw [ParseText.parseText_panic fo hs hp] at h; cases h
+    | ok v =>
+      obtain ⟨d', rest⟩ := v
+      cases rest with
+      | nil =>
+        rw [ParseText.parseText_last fo hs hp] at h
+        cases h
+        exact ⟨ts, [], rfl, hp, by simp, by intro t rest' h'; cases h'⟩
+      | cons t rest =>
+        obtain ⟨p, sfx, ts0, he, hlo, hdrop, hpt, _, _⟩ := ParseText.parseText_more fo hs hp
+        rw [hpt] at h
+        cases h
+        refine ⟨ts, t :: rest, rfl, hp, by simp, ?_⟩
+        intro t' rest' h'
+        cases h'
+        exact ⟨p, sfx, he, hlo.symm, hdrop, rfl⟩
+
+/-- T11.4 (b): the remaining text `parse_text` returns re-scans to the remaining tokens, shifted
+    by the number of bytes cut off, and these are strictly fewer than the tokens of the text -/
+theorem parse_text_rescan (fo : FloatOps) (text : Text) (d : Datum) (sfx : Text)
+    (h : parseText fo text = .ok (d, some sfx)) :
+    ∃ (ts rest : List Token) (p : Text) (ts0 : List Token),
+      scan text = .ok ts ∧ parseTokens fo text ts = .ok (d, rest) ∧ rest ≠ [] ∧
+      text = p ++ sfx ∧ scan sfx = .ok ts0 ∧ rest = ts0.map (Token.shift (byteLen p)) ∧
+      ts0.length = rest.length ∧ rest.length < ts.length := by
+  cases hs : scan text with
+  | error e => rw [ParseText.parseText_lexErr fo hs] at h; cases h
+  | ok ts =>
+    cases hp : parseTokens fo text ts with
+    | err e => rw [ParseText.parseText_err fo hs hp] at h; cases h
+    | panic m => rw [ParseText.parseText_panic fo hs hp] at h; cases h
+    | ok v =>
+      obtain ⟨d', rest⟩ := v
+      cases rest with
+      | nil => rw [ParseText.parseText_last fo hs hp] at h; cases h
+      | cons t rest =>
+        obtain ⟨p, sfx', ts0, he, _, _, hpt, hsc, hmap⟩ := ParseText.parseText_more fo hs hp
+        rw [hpt] at h
+        cases h
+        refine ⟨ts, t :: rest, p, ts0, rfl, hp, by simp, he, hsc, hmap, ?_,
+          ParseText.parseTokens_rest_lt fo hp⟩
+        rw [hmap, List.length_map]
+
+/-- the parser sees a suffix of the text with its own tokens exactly as it sees the whole text with
+    the shifted tokens: same datum, same error, remaining tokens shifted -/
+theorem parse_suffix_agrees (fo : FloatOps) (p sfx : Text) (ts0 : List Token) :
+    parseTokens fo (p ++ sfx) (ts0.map (Token.shift (byteLen p))) =
+      match parseTokens fo sfx ts0 with
+      | .ok (d, rest) => .ok (d, rest.map (Token.shift (byteLen p)))
+      | .err e => .err e
+      | .panic m => .panic m := by
+  rw [ParseText.parseTokens_suffix]
+  cases parseTokens fo sfx ts0 with
+  | ok v => obtain ⟨d, rest⟩ := v; rfl
+  | err e => rfl
+  | panic m => rfl
+
+/-- T11.4 (c), one datum per round: the loop over the remaining *texts* (`readAllF`, the model of
+    how `eval_text` is iterated) is, for every fuel, the loop over the remaining *tokens* of the one
+    token list of the whole text -/
+theorem read_loop_tokenwise (fo : FloatOps) (f : Nat) (text : Text) (ts : List Token)
+    (h : scan text = .ok ts) : readAllF fo f text = ParseText.readToksF fo text f ts :=
+  ParseText.readAll_eq_readToks fo f text ts h
+
+/-- T11.4 (c), each datum once: whatever the loop returns, the tokens of the text are the
+    concatenation of the token groups of the data read, in order, each group parsing on its own to
+    its datum, followed by nothing or by the tokens on which `parse` reported the final error -/
+theorem read_loop_each_datum_once (fo : FloatOps) (f : Nat) (text : Text) (ts : List Token)
+    (h : scan text = .ok ts) (ds : List Datum) (fin : Option (PRes Unit))
+    (hr : readAllF fo f text = some (ds, fin)) : ParseText.ReadsAs fo text ts ds fin := by
+  rw [read_loop_tokenwise fo f text ts h] at hr
+  exact ParseText.readToksF_readsAs fo text f ts ds fin hr
+
+/-- T11.4 (c), termination: the loop ends after at most `max 1 |tokens|` rounds (every fuel that
+    large gives the same answer, never `none`), having read at most `|tokens|` data -/
+theorem read_loop_terminates (fo : FloatOps) (text : Text) (ts : List Token)
+    (h : scan text = .ok ts) :
+    ∃ ds fin, ds.length ≤ ts.length ∧
+      ∀ f, 0 < f → ts.length ≤ f → readAllF fo f text = some (ds, fin) := by
+  obtain ⟨ds, fin, hr, hlen⟩ :=
+    ParseText.readToksF_total fo text (max 1 ts.length) ts (by omega) (by omega)
+  refine ⟨ds, fin, hlen, fun f h0 hf => ?_⟩
+  rw [read_loop_tokenwise fo f text ts h]
+  exact ParseText.readToksF_mono fo text (by omega) hr
+
+/-- when the text does not scan, the loop ends in its first round with the scanner's error -/
+theorem read_loop_lex_error (fo : FloatOps) (f : Nat) (text : Text) (e : LexErr)
+    (h : scan text = .error e) : readAllF fo (f + 1) text = some ([], some (.err (.lex e))) :=
+  ParseText.readAllF_lexErr fo f h
+
+/-! ### panic freedom of the parser model on scanner output
+
+Every panic site of the parser model — `&text[lo..hi]` on a token span, `&span[2..]` in
+`parse_char`, `&span[1..len-1]` and the `usize` subtraction in the string arm,
+`chars().next().unwrap()` on a bracket, `panic!("unexpected number prefix")`, the radix assertion of
+`from_str_radix`, the `i32` negation in `Ratio::new`, `&text[span.0..]` in `parse_text`, and the
+model's own fuel — is unreachable when the tokens come from `scan` on the same text. -/
+
+/-- T11.2, as the parser uses it: every token of the scanner's answer can be sliced out of the text
+    (in bounds, both ends on character boundaries), the slice is non-empty and spelled as the
+    token's type promises -/
+theorem scan_tokens_sliceable {text : Text} {ts : List Token} (h : scan text = .ok ts) :
+    ∀ t ∈ ts, ∃ body, tokSpan text t = .ok body ∧ body ≠ [] ∧ ParseText.BodyOK t.ty body :=
+  fun t ht => ParseText.tokSpan_ok (ParseText.scan_bodies h t ht)
+
+/-- **the parser model never panics on scanner output**: for every text that scans, `parse` run on
+    the scanner's tokens — or on any token list drawn from them, e.g. what an earlier `parse` left —
+    over that text has no panic outcome, with any fuel -/
+theorem parse_never_panics_on_scan (fo : FloatOps) {text : Text} {ts : List Token}
+    (h : scan text = .ok ts) (ts' : List Token) (hsub : ∀ x ∈ ts', x ∈ ts) (m : String) :
+    parseTokens fo text ts' ≠ .panic m ∧ ∀ f, parseF fo text f ts' ≠ some (.panic m) :=
+  have hall : ∀ x ∈ ts', ParseText.TokOK text x := fun x hx => ParseText.scan_bodies h x (hsub x hx)
+  ⟨ParseText.parseTokens_noPanic fo hall m, fun f => (ParseText.parse_noPanic fo text f).1 ts' hall m⟩
+
+/-- the instance for the scanner's own answer -/
+theorem parse_scan_never_panics (fo : FloatOps) {text : Text} {ts : List Token}
+    (h : scan text = .ok ts) (m : String) : parseTokens fo text ts ≠ .panic m :=
+  (parse_never_panics_on_scan fo h ts (fun _ hx => hx) m).1
+
+/-- `parse_text` has no panic outcome, for any text: it answers with a datum and the remaining
+    text, or with an error -/
+theorem parse_text_never_panics (fo : FloatOps) (text : Text) (m : String) :
+    parseText fo text ≠ .panic m :=
+  ParseText.parseText_noPanic fo text m
+
+/-- the read loop never ends in a panic -/
+theorem read_loop_never_panics (fo : FloatOps) (f : Nat) (text : Text) (ds : List Datum)
+    (fin : Option (PRes Unit)) (h : readAllF fo f text = some (ds, fin)) (m : String) :
+    fin ≠ some (.panic m) :=
+  ParseText.readAllF_noPanic fo f text ds fin h m
+
+/-! ### non-vacuity of T11.4 and of panic freedom (kernel-evaluated witnesses kept tiny: the
+kernel re-evaluates the remaining text lazily, so rounds multiply the cost) -/
+
+def sample2 : Text := "a #\\b \"c\"".toList
+
+def sample2Tokens : List Token := [⟨0,1,.symbol⟩, ⟨2,5,.char⟩, ⟨6,9,.string⟩]
+
+example : (scan sample2).toOption = some sample2Tokens := by decide
+
+/-- the remaining text is the suffix at the second token (byte 2) … -/
+example : parseText noFloats sample2 = .ok (.sym ['a'], some ("#\\b \"c\"".toList)) := by decide
+
+/-- … and scanning it yields the remaining tokens, two bytes to the left -/
+example : (scan ("#\\b \"c\"".toList)).toOption = some [⟨0,3,.char⟩, ⟨4,7,.string⟩] := by decide
+
+example : sample2Tokens.tail =
+    ([⟨0,3,.char⟩, ⟨4,7,.string⟩] : List Token).map (Token.shift 2) := by decide
+
+/-- the loop reads the three data in three rounds (three tokens, fuel 3) and ends without an error;
+    the character and the string exercise `&span[2..]` and `&span[1..len-1]` -/
+example : readAllF noFloats 3 sample2 = some ([.sym ['a'], .char 'b', .str ['c']], none) := by
+  decide
+
+/-- a loop that ends with an error after one datum: two rounds for three + one tokens -/
+example : readAllF noFloats 2 "(a) )".toList =
+    some ([.pair (.sym ['a']) .nil], some (.err .unexpectedToken)) := by decide
+
+/-- the number-prefix arm (`prefixStep`, radix 16) on scanner output -/
+example : parseText noFloats "#x1".toList = .ok (.num (.fix 1), none) := by decide
+
+/-- a text without tokens: one round, `Incomplete`, no datum -/
+example : readAllF noFloats 1 " ".toList = some ([], some (.err .incomplete)) := by decide
+
+/-- a token that is not the scanner's is sliced off a character boundary: the panic branch of the
+    model is real, and `scan text = ok ts` is what excludes it -/
+example : ∃ m, parseTokens noFloats ['é'] [⟨0,1,.symbol⟩] = .panic m := ⟨_, rfl⟩
 
 end Marwood.Proofs.C11
